@@ -11,7 +11,8 @@ CHECKS = {
     "C04": [("R-ALLOC.who", "r_global", "run_alloc_who", ("quick", "thorough")),
             ("R-TMP", "r_tmp", "run", ("quick", "thorough")),
             ("R-ALIAS.mem", "r_alias", "run_mem", ("quick", "thorough")),
-            ("R-ALLOC.size", "r_alloc", "run", ("quick", "thorough"))],
+            ("R-ALLOC.size", "r_alloc", "run", ("quick", "thorough")),
+            ("R-EXTENT.tmp", "r_extent", "run", ("quick", "thorough"))],
     "C05": [("R-ALIAS", "r_alias", "run", ("quick", "thorough")),
             ("R-CONSTSRC.ir", "r_constsrc", "run", ("quick", "thorough"))],
     "C06": [("R-TABLES.c06", "r_tables", "run_c06", ("quick", "thorough")),
@@ -61,6 +62,7 @@ RULES = {
     "R-TABIDX.digit": ("r_tables", "run_digit_index"),
     "R-CONSTSRC.ir": ("r_constsrc", "run"),
     "R-SAMESRC": ("r_samesrc", "run"),
+    "R-EXTENT.tmp": ("r_extent", "run"),
 }
 
 EXPLANATION = {
@@ -202,6 +204,9 @@ ASSUMPTIONS = {
                       "external callees (assembly kernels, libc) write exactly through the parameters their C prototypes declare pointer to non-const "
                       "(register discipline of the kernels is R-ABI's subject; their memory footprint is taken from the prototypes)",
                       "pointers handed to indirect calls are counted as undecided"],
+    "R-EXTENT.tmp": ["a scratch block holds exactly the limbs requested; TMP_ALLOC in a loop reuses one region name (sizes of different iterations are not "
+                     "told apart)", "write extents of mpn callees from the MPN_EXTENTS table (manual); inline MPN_ZERO / MPN_COPY_INCR / MPN_COPY_DECR "
+                     "summarised from their __dst / __n declarations", "refutes only on a positive constant difference of linear terms; everything else is undecided"],
     "R-SAMESRC": ["an operand's own length is the integer parameter that immediately follows its pointer parameter (the library's convention)"],
     "R-ALLOC.who": ["direct calls and address-taking in the linked IR are all the ways to reach the C allocator"],
 }
